@@ -74,6 +74,14 @@ for _i in range(1, 21):
     NOT_APPLICABLE.setdefault('C%02d' % _i, 'not yet under contract in this revision of /verif (see DESIGN.md build order)')
 
 PROPS = {
+    'C20': {
+        'level_text': 'complete (loop-free, full i64 / full dimension domain) Kani proofs on the compiled crate that check_left_id / check_right_id / check_cost accept exactly the values that index an existing matrix line / fit i16 and return them unchanged',
+        'level_note': 'so far only util/check_params.rs; unk.def parsing, inhibit_connection pairs and user POS handling are not yet under contract',
+        'verus': [],
+        'kani': ['k_chk'],
+        'kani_full': ['check_left_id_uses_lattice_dimension', 'check_left_id_strict', 'check_right_id_strict'],
+        'assumptions': ['matrix dimensions <= 32767 (they are read from i16 header fields)'],
+    },
     'C02': {
         'level_text': 'Verus proves on the real connect_node/insert/connect_eos/fill_top_path (with the real accessor traits) that every stored cumulative cost is a minimum over connected predecessors (is_best) and that insert keeps the lattice invariant lat_wf; the proof fns theorem_viterbi / theorem_prefix_costs derive from lat_wf alone, for every lattice and matrix, that the EOS cost equals the cost of the emitted back-pointer path and is <= the cost of every other covering path, and that each stored cumulative cost equals the cost recomputed along the path; ConnectionMatrix::cost is proved to read the row-major cell right*num_left+left',
         'level_note': 'precondition strict_no_overflow (no candidate i32 sum overflows or equals i32::MAX) is NOT established by callers at cost extremes: recorded as finding F10 under C03; assumed: nodes are inserted left to right (established by LatticeBuilder, not yet under contract), ids of dictionary words lie inside the matrix (C06/C20), rows hold <= 65535 nodes; CowArray viewed as Vec (R5); word parameters fetched from the lexicon are taken as given',
